@@ -42,6 +42,8 @@ type c14Input struct {
 	// decision reason) and the traces driven, in this order, through one collector worker
 	CollNames  []string  `json:"coll_names,omitempty"`
 	CollTraces []c14Dest `json:"coll_traces,omitempty"`
+	// route level: encoded {datasetName} path segments posted with a classic key through the real router
+	RouteSegments []string `json:"route_segments,omitempty"`
 }
 
 func init() {
@@ -161,6 +163,9 @@ func c14GenColl(r *rand.Rand) c14Input {
 func c14Gen(r *rand.Rand, tier string, i int) any {
 	if i%4 == 1 {
 		return c14GenColl(r)
+	}
+	if i%8 == 3 {
+		return c14GenRoute(r)
 	}
 	in := c14Input{Prefix: []string{"", "", "pfx", "prod", "x"}[r.Intn(5)]}
 	in.Rules = append(in.Rules, c14Def{Name: "__default__", Type: 1 + r.Intn(7)})
@@ -347,6 +352,9 @@ func c14Run(raw json.RawMessage) (Case, error) {
 	if len(in.CollTraces) > 0 {
 		return c14RunColl(in)
 	}
+	if len(in.RouteSegments) > 0 {
+		return c14RunRoute(in)
+	}
 	// Go map semantics: one definition per name (the first wins here, the YAML gets the same list)
 	seen := map[string]bool{}
 	var rules []c14Def
@@ -436,7 +444,7 @@ func c14Run(raw json.RawMessage) (Case, error) {
 	if in.Prefix != "" {
 		tags = append(tags, "dataset-prefix")
 	}
-	coq := fmt.Sprintf("(Build_case %s %s %s [])", c14Bytes(in.Prefix), cq.List(rs), cq.List(es))
+	coq := fmt.Sprintf("(Build_case %s %s %s [] [])", c14Bytes(in.Prefix), cq.List(rs), cq.List(es))
 	b, _ := json.Marshal(in)
 	return Case{Coq: coq, Key: string(b), Nontriv: nontriv, Tags: sampDedupTags(tags),
 		Summary: map[string]any{"prefix": in.Prefix, "rules": in.Rules, "events": human}}, nil
@@ -488,7 +496,7 @@ func c14RunColl(in c14Input) (Case, error) {
 	if in.Prefix != "" {
 		tags = append(tags, "dataset-prefix")
 	}
-	coq := fmt.Sprintf("(Build_case %s %s [] %s)", c14Bytes(in.Prefix), cq.List(rs), cq.List(cs))
+	coq := fmt.Sprintf("(Build_case %s %s [] %s [])", c14Bytes(in.Prefix), cq.List(rs), cq.List(cs))
 	b, _ := json.Marshal(in)
 	return Case{Coq: coq, Key: string(b), Nontriv: nontriv, Tags: tags,
 		Summary: map[string]any{"prefix": in.Prefix, "rules_entries": names, "collector": human}}, nil
